@@ -15,6 +15,7 @@
 package main
 
 import (
+	"errors"
 	"fmt"
 	"os"
 	"runtime"
@@ -28,7 +29,13 @@ func main() {
 	run := ev.Start("C27", "exploration")
 	g, err := setupGlobal()
 	if err != nil {
-		ev.Fatal("setup: %v", err)
+		var pe *os.PathError
+		if errors.As(err, &pe) {
+			ev.Fatal("setup: %v", err)
+		}
+		// the lab chain, key store, mnemonic and address functions are not what the statement is about
+		run.Capped(fmt.Sprintf("world: could not be set up: %v", err))
+		run.Finish()
 	}
 	cleanup := func() { os.RemoveAll(g.hsmDir) } // run.Finish exits the process, so no defer
 
@@ -50,7 +57,10 @@ func main() {
 	for i := range worlds {
 		w, err := newWorld(g, i)
 		if err != nil {
-			ev.Fatal("wallet setup: %v", err)
+			// account / address creation by the repository's account manager failed: nothing to fund
+			os.RemoveAll(g.hsmDir)
+			run.Capped(fmt.Sprintf("wallet: could not be set up: %v", err))
+			run.Finish()
 		}
 		worlds[i] = w
 	}
